@@ -36,6 +36,8 @@ VARIANTS = {
     'badref': 'codegen',      # parent imported from a module that does not define it
     'oidcycle': 'codegen',    # circular OID definition
     'oidtype': 'codegen',     # OID parent names a type
+    'latefail': 'codegen',    # fails in the generator after most objects were registered (undefined bit in a DEFVAL)
+    'lexpct': 'parser',       # illegal character that is also a format directive
 }
 DEFECTS = [v for v in VARIANTS if v != 'ok']
 
@@ -211,6 +213,13 @@ def render(spec, allspecs=None):
                   '%sEntry OBJECT-TYPE SYNTAX %sEntry %s not-accessible STATUS %s DESCRIPTION "e" INDEX { INTEGER } ::= { %sTable 1 }' % (t, t.capitalize(), acc, st, t),
                   '%sEntry ::= SEQUENCE { %sCol INTEGER }' % (t.capitalize(), t),
                   '%sCol OBJECT-TYPE SYNTAX INTEGER %s read-only STATUS %s DESCRIPTION "c" ::= { %sEntry 1 }' % (t, acc, st, t), '']
+    if v == 'latefail':
+        acc2 = 'ACCESS' if spec.get('smiv1') else 'MAX-ACCESS'
+        lines += ['%sLate OBJECT-TYPE' % sym(name), '    SYNTAX BITS { first(0), second(1) }', '    %s read-write' % acc2,
+                  '    STATUS %s' % ('mandatory' if spec.get('smiv1') else 'current'), '    DESCRIPTION "default names a bit that does not exist"',
+                  '    DEFVAL { { nosuchbit } }', '    ::= { %s 70 }' % me, '']
+    if v == 'lexpct':
+        lines.append('% 100% wrong')
     if v in ('syntax', 'lex', 'forbidden') and not arcs:
         lines.append({'syntax': '%sx OBJECT IDENTIFIER { %s 1 }' % (me, me), 'lex': '@', 'forbidden': 'x OBJECT IDENTIFIER ::= { FALSE 1 }'}[v])
     if v == 'dupsym':
